@@ -4,7 +4,7 @@ A *spec* is a plain JSON-able dict (so that it can travel to pool workers and in
 
     {'kind': 'pit1d'|'pit2d'|'pitcat'|'mpsl'|'mpsc'|'sn', 'seed': int, 'ch': int, 'k': int,
      'dropout': bool, 'gumbel': bool, 'hard': bool, 'full_cost': bool, 'discrete_cost': bool,
-     'cost': 'single'|'dict'}
+     'cost': 'single'|'dict', optionally 'temperature': int|float (MPS constructor argument)}
 
 `build(spec)` returns `(wrapper, input_shape)`; two calls with the same spec give two wrappers of the
 *same seed network* (same initial weights) built with the *same constructor arguments*.
@@ -149,7 +149,9 @@ def build(spec, seednet=None):
         w = MPS(net, input_shape=shape, cost=cost, full_cost=spec['full_cost'],
                 qinfo=get_default_qinfo((0, 2, 4, 8) if per_ch else (2, 4, 8), (4, 8)),
                 w_search_type=MPSType.PER_CHANNEL if per_ch else MPSType.PER_LAYER,
-                gumbel_softmax=spec['gumbel'], hard_softmax=spec['hard'])
+                gumbel_softmax=spec['gumbel'], hard_softmax=spec['hard'],
+                # optional constructor temperature, given as written by the user: a Python int (1, 5) or a float
+                **({'temperature': spec['temperature']} if spec.get('temperature') is not None else {}))
     else:
         w = SuperNet(net, input_shape=shape, cost=cost, full_cost=spec['full_cost'])
     return w, shape
